@@ -40,7 +40,7 @@ ASSUMPTIONS = [
     "the originator's keys)",
 ]
 
-NETWORK_FAULTS = {"duplicate", "delay", "drop", "late_before_next", "replay_earlier"}
+NETWORK_FAULTS = {"duplicate", "delay", "drop", "late_before_next", "replay_earlier", "replay_create"}
 MANIPS = ["flip_identifier", "flip_key", "flip_auth", "flip_candidates", "flip_cid", "substitute", "swap_other",
           "replay_earlier", "duplicate", "delay", "drop", "late_before_next"]
 
@@ -114,6 +114,7 @@ class Run:
                 cr = parse_create(cell["message"])
                 if cr is not None:
                     self.create_X[(fl.dst, fl.src, cell["circuit_id"])] = cr["key"]
+                    self.creates.append((fl.src, fl.dst, bytes(fl.data)))
                     return None
                 cd = parse_created(cell["message"])
                 if cd is None:
@@ -193,6 +194,8 @@ class Run:
                 fl.data = bytes(data)
                 return out
             self.replay_later = None
+            self.creates: list = []
+            create_replayed = False
             self.held = []
             self.attacker_s1 = None
             w.net.on_send = hook
@@ -214,8 +217,18 @@ class Run:
                     src, dst, data = self.replay_later
                     w.net.inject(src, dst, data, note="replay")
                     replayed = True
+                if c.get("replay_create") is not None and not create_replayed and self.creates and \
+                        loop.time() - vloop.EPOCH > origin.overlay.settings.unstable_timeout + 2:
+                    # a network attacker re-delivers a recorded plaintext create request long after the handshake (the
+                    # responder's handshake record has expired by then; the hop itself is established and in use)
+                    src, dst, data = self.creates[c["replay_create"] % len(self.creates)]
+                    w.net.inject(src, dst, data, note="replayed create")
+                    self.applied.append(("replay_create", c["replay_create"] % len(self.creates)))
+                    create_replayed = True
+                    replay_at = loop.time()
                 if all(ci is None or ci.state in ("READY", "CLOSING") for ci in circuits) and \
-                        (self.replay_later is None or replayed) and loop.time() - vloop.EPOCH > 14:
+                        (self.replay_later is None or replayed) and loop.time() - vloop.EPOCH > 14 and \
+                        (c.get("replay_create") is None or (create_replayed and loop.time() - replay_at > 3)):
                     break
             await asyncio.sleep(0.5)
             self.check_established(origin, circuits)
@@ -371,6 +384,7 @@ def _strategy():
         "second": st.booleans(),
         "manips": st.lists(manip, max_size=3, unique_by=lambda m: m["nth"]),
         "nht": st.sampled_from([10, 10, 3]),
+        "replay_create": st.sampled_from([None, None, None, 0, 1, 2]),
     })
 
 
@@ -389,6 +403,9 @@ def _grid_shard(ctx: Ctx, shard: int, nshards: int) -> None:
                         continue
                     case = {"hops": hops, "seed": 11 + k, "second": kind == "swap_other", "nht": 3 if arg == 7 else 10,
                             "manips": [{"nth": nth + (1 if kind == "swap_other" else 0), "type": kind, "arg": arg}]}
+                    if kind == "drop" and arg == 130:
+                        # grid slot re-used for the honest build followed by a late replay of the nth create request
+                        case = {"hops": hops, "seed": 11 + k, "second": False, "nht": 10, "manips": [], "replay_create": nth}
                     try:
                         run_case(ctx, case)
                     except Violation as v:
